@@ -29,7 +29,7 @@ CLAIMED = {
  'C07': ('Coq proof of Hamming-mode exactness for symdel (self and two-collection), the hash ball and the kdtree bucket search; differential runs over interleaved length classes',
          'Theorems C07_* (coq/props/C07.v): each engine model returns exactly the ordered pairs of distinct input positions with equal length and <= k mismatches, d = number of mismatches; unequal lengths never. Positions are positions of the input list (kdtree buckets are mapped back).',
          COMMON_NOTE + 'rapidfuzz Hamming.distance; scipy KDTree contract; the bucket-to-input position mapping of kdtree is in the executable model and tied by correspondence.', 'DESIGN.md section 4 C07'),
- 'C10': ('Coq proof that the COO/dense form of a pair-unique triplet list holds d at [r][q] and 0 elsewhere (combined with the uniqueness theorems), argument-check decision table; differential runs over engines x containers x formats and the invalid-argument product',
+ 'C10': ('Coq proof that the COO/dense form of a pair-unique triplet list holds d at [r][q] and 0 elsewhere (combined with the uniqueness theorems), argument-check decision table proved equal to the validator regenerated from nn._check_common_input; differential runs over engines x containers x formats and the invalid-argument product',
          'Theorems C10_* (coq/props/C10.v): dense form exact when no pair repeats (duplicates would be summed - shown), shape, the default engine\'s matrix entry formula, every invalid class rejected by the check model.',
          COMMON_NOTE + 'scipy coo_matrix.toarray sums duplicates; container independence is definitional in the model and carried by correspondence (lists, tuples, arrays, Series with 4 index kinds).', 'DESIGN.md section 4 C10'),
  'C11': ('Coq proof: any chunk size >= 1 and any completion order of a modelled Pool.map give the serial result; chunk-size expression regenerated from nn.py proved >= 1; compression independence from the pre-filter theorem; top-m contract of stable sort + firstn; differential runs with real Pool workers',
